@@ -163,14 +163,15 @@ Theorem C10_create_ok_cached :
 Proof. exact create_ok_cached. Qed.
 Print Assumptions C10_create_ok_cached.
 
-(* ... and (2) for a name not yet cached whose parent directory the cache has, in a layer without dangling
-   path-map entries.
+(* ... and (2) for a name not yet cached whose parent directory the cache has (a directory: below a
+   regular file MemMapFs's Create answers ENOTDIR), in a layer without dangling path-map entries.
    Full strength (not proved): [layer_ready sl name] for every layer state reachable through the API and every
    name other than the root — needs MkdirAll's effect on the path map and "an ancestor of a path is not the
    path" for Lib/Path.v's functions. *)
 Theorem C10_create_ok_new_partial :
-  forall (s : mst) (name : str) (p : nat),
+  forall (s : mst) (name : str) (p : nat) (pn : node),
   wf_map s -> lookup s (normalize_path name) = None -> lookup s (parent_key (normalize_path name)) = Some p ->
+  get_node s p = Some pn -> ndir pn = true ->
   CreateOK s name.
 Proof. exact create_ok_new. Qed.
 Print Assumptions C10_create_ok_new_partial.
